@@ -71,12 +71,52 @@ def gen_grammar(rng, colliding, deep=False):
     return {'nts': nts, 'rules': rules, 'rprio': rprio, 'tprio': tprio, 'terms': terms}
 
 
+def gen_grammar_emp(rng):
+    """strictly layered BNF (nonterminals refer only to later ones: finitely many derivations) in which some rules have a DIRECTLY
+    EMPTY alternative (alias <nt>_e) next to alternatives that are nullable through their children, with signed priorities:
+    the class on which the statement's built-in precedence is checked"""
+    terms = {'A': 'a', 'B': 'b'}
+    tnames = sorted(terms)
+    n_nt = rng.randint(3, 6)
+    nts = ['start'] + ['n%d' % i for i in range(1, n_nt)]
+    rules = {}
+    empty = {}
+    for idx, nt in enumerate(nts):
+        later = nts[idx + 1:]
+        alts = []
+        for _ in range(rng.randint(1, 3)):
+            k = rng.choice([1, 1, 2, 2, 3])
+            syms = [rng.choice(later) if (later and rng.random() < 0.7) else rng.choice(tnames) for _ in range(k)]
+            if syms not in alts:
+                alts.append(syms)
+        rules[nt] = alts
+        empty[nt] = idx > 0 and rng.random() < 0.55
+    rprio = {nt: rng.choice([None, None, -2, -1, -1, 1, 2]) for nt in nts}
+    tprio = {t: 0 for t in tnames}
+    return {'nts': nts, 'rules': rules, 'rprio': rprio, 'tprio': tprio, 'terms': terms, 'empty': empty}
+
+
+def nullable_nonempty_alternatives(g):
+    """nonterminals that have an alternative with >= 1 symbols all of which can derive the empty string"""
+    nullable = {nt for nt, e in g.get('empty', {}).items() if e}
+    changed = True
+    while changed:
+        changed = False
+        for nt, alts in g['rules'].items():
+            if nt not in nullable and any(a and all(s in nullable for s in a) for a in alts):
+                nullable.add(nt)
+                changed = True
+    return {nt for nt, alts in g['rules'].items() if any(a and all(s in nullable for s in a) for a in alts)}
+
+
 def grammar_text(g, with_priorities=True):
     lines = []
     for nt in g['nts']:
         pr = g['rprio'].get(nt) if with_priorities else None
         head = nt + ('.%d' % pr if pr is not None else '') + ': '
         alts = [' '.join(syms) + ' -> %s_%d' % (nt, i) for i, syms in enumerate(g['rules'][nt])]
+        if g.get('empty', {}).get(nt):
+            alts.insert(0, '-> %s_e' % nt)
         lines.append(head + '\n  | '.join(alts))
     for t in sorted(g['terms']):
         pr = g['tprio'].get(t, 0) if with_priorities else 0
@@ -92,6 +132,8 @@ def gen_inputs(g, rng, k=5, maxlen=8):
         if sym in terms:
             return terms[sym]
         alts = g['rules'][sym]
+        if g.get('empty', {}).get(sym):
+            alts = alts + [[]]
         if depth > 3:
             alts = [a for a in alts if all(s in terms for s in a)] or alts
         return ''.join(expand(s, depth + 1) for s in rng.choice(alts))
@@ -107,8 +149,11 @@ def gen_inputs(g, rng, k=5, maxlen=8):
     outs = sorted(outs)
     if outs and rng.random() < 0.3:
         s = rng.choice(outs)
-        i = rng.randrange(len(s))
-        outs.append(s[:i] + rng.choice(CHARS) + s[i + 1:])       # possibly rejected
+        if s:
+            i = rng.randrange(len(s))
+            outs.append(s[:i] + rng.choice(CHARS) + s[i + 1:])   # possibly rejected
+        else:
+            outs.append(rng.choice(CHARS))
     return outs
 
 
